@@ -430,3 +430,40 @@ def c01_receiver_case(case):
         v.setdefault('case', case)
     return {'violations': viol[:20], 'transitions': transitions, 'traces': traces, 'nontrivial': True,
             'sample': {k: case[k] for k in ('eq', 'topo', 'spectrum')} | {'kind': 'receiver'}}
+
+
+def c01_multiband_case(case):
+    """multi-band propagations (incl. a band that carries exactly one channel): the bookkeeping invariants hold at every
+    snapshot and band split/merge inside multi-band amplifiers neither loses nor duplicates a channel"""
+    import numpy as np
+    from checks import c07
+    net, equipment, _, _ = design(c07.network(case['net']), c07.library())
+    viol, transitions, traces = [], 0, 0
+    for path in all_simple_trx_paths(net):
+        common, union = c07.path_common_bands(path)
+        spec = []
+        for k, (lo, hi) in enumerate(common):
+            n = 1 if (k + case['variant']) % len(common) == 0 else 3       # one band holds a single channel
+            for i in range(n):
+                spec.append(dict(f=lo + 100e9 + i * 150e9, baud=32e9, slot=50e9, power_dbm=-1.0 * i, label=f'b{k}'))
+        req = make_request(equipment, path[0].uid, path[-1].uid, spectrum=sorted(spec, key=lambda x: x['f']))
+        try:
+            pth, si, rec = propagate_recorded(path, req, equipment)
+        except Exception as exc:  # noqa
+            viol.append(dict(fingerprint=f'multiband-propagation-raised:{type(exc).__name__}', what=f'{case}: {str(exc)[:150]}'))
+            continue
+        n0 = len(rec.steps[0]['pre']['f'])
+        ok = True
+        for st in rec.steps:
+            transitions += 1
+            vs = snapshot_invariants(st['post'], f'after {st["cls"]} {st["uid"]}')
+            if len(st['post']['f']) != n0:
+                vs.append(dict(fingerprint='band-split-merge-lost-channels', what=f'{case}: {st["cls"]} {st["uid"]} returns '
+                               f'{len(st["post"]["f"])} of {n0} channels (bands {common})'))
+            viol.extend(vs)
+            ok = ok and not vs
+        traces += ok
+    for v in viol:
+        v.setdefault('case', case)
+    return {'violations': viol[:6], 'transitions': transitions, 'traces': traces, 'nontrivial': True,
+            'tags': {'multiband-propagation': 1}, 'sample': case}
